@@ -869,3 +869,72 @@ Proof.
     with (mk_vp (tc_sph t) step fail).
   apply srv1_new_spec; assumption.
 Qed.
+
+(* ================= C10: every strict prefix of a packed report is rejected ================= *)
+
+Theorem srv1_prefix_rejected apid k seq version ref dest stamp h step fail cfg n :
+  srv1_args_valid apid k seq version ref dest stamp h step fail ->
+  (n < length (srv1_layout apid k seq version ref dest stamp h step fail))%nat ->
+  srv1_unpack (firstn n (srv1_layout apid k seq version ref dest stamp h step fail)) cfg = Err ETooShort.
+Proof.
+  intros (V & _) L. pose proof (tm_hdr_valid _ _ _ _ _ _ _ _ _ _ V) as HV.
+  pose proof (srv1_layout_length apid k seq version ref dest stamp h step fail) as LL.
+  unfold srv1_unpack, srv1_layout in *.
+  set (src := srv1_src_layout h step fail) in *.
+  set (hd := {| ver := version; ptype := 0; shf := 1; apid := apid; sflags := 3; scount := seq;
+                dlen := 7 + len stamp + len src + 1 |}) in *.
+  assert (D : exists r, tm_layout 1 k apid seq 0 ref dest version stamp src = sph_layout hd ++ r).
+  { eexists. unfold tm_layout, tm_body. fold hd. rewrite <- !app_assoc. reflexivity. }
+  destruct D as [r D]. rewrite D in *.
+  assert (E : tm_unpack (firstn n (sph_layout hd ++ r)) (up_ts_len cfg) = Err ETooShort).
+  { unfold tm_unpack. destruct (le_lt_dec 6 n) as [G|G].
+    - rewrite firstn_app. change (length (sph_layout hd)) with 6%nat.
+      rewrite (firstn_all2 (sph_layout hd)) by (cbn; lia).
+      rewrite sph_unpack_pack by exact HV. cbn [bind].
+      unfold get_total_space_packet_len_from_len_field. change (dlen hd) with (7 + len stamp + len src + 1).
+      destruct (_ >? _) eqn:E1; [reflexivity|]. exfalso.
+      rewrite len_app in E1, LL. change (len (sph_layout hd)) with 6 in E1, LL.
+      rewrite app_length in L. change (length (sph_layout hd)) with 6%nat in L.
+      unfold len in *. rewrite firstn_length in E1. lia.
+    - rewrite sph_unpack_short; [reflexivity|]. rewrite firstn_length. lia. }
+  rewrite E. reflexivity.
+Qed.
+
+(* ================= C10: Service1Tm.unpack on every octet string ================= *)
+
+Lemma py_get_ok (d : bytes) i : 0 <= i < len d -> exists b, py_get d i = Ok b.
+Proof. intros H. destruct (py_get_in_range d i H) as (b & E & _). eauto. Qed.
+
+Lemma tmsec_unpack_total d tl : ok_or_documented (tmsec_unpack d tl).
+Proof.
+  unfold tmsec_unpack, TMSEC_MIN_LEN. destruct (len d <? 7) eqn:E; [reflexivity|].
+  destruct (py_get_ok d 0 ltac:(lia)) as [b0 ->]. cbn [bind].
+  destruct (negb _); [reflexivity|].
+  destruct (7 + tl >? len d); [reflexivity|].
+  destruct (py_get_ok d 1 ltac:(lia)) as [b1 ->]. destruct (py_get_ok d 2 ltac:(lia)) as [b2 ->]. cbn [bind].
+  rewrite !struct_unpack_ok by (rewrite slice_length by lia; reflexivity). exact I.
+Qed.
+
+Theorem s1_tm_unpack_total d tl : wf_bytes d -> ok_or_documented (tm_unpack d tl).
+Proof.
+  intros W. unfold tm_unpack. destruct (le_lt_dec 6 (length d)) as [L|L].
+  - destruct (sph_pack_unpack d W L) as (h & -> & _). cbn [bind].
+    destruct (_ >? len d); [reflexivity|].
+    apply bind_total; [apply tmsec_unpack_total|]. intros s.
+    destruct (_ <? _); [reflexivity|]. destruct (negb _); [reflexivity|exact I].
+  - rewrite sph_unpack_short by assumption. reflexivity.
+Qed.
+
+(* every octet string, every parameter triple: a report or a documented error *)
+Theorem srv1_unpack_total_closed d cfg : wf_bytes d -> ok_or_documented (srv1_unpack d cfg).
+Proof. intros W. apply srv1_unpack_total, s1_tm_unpack_total, W. Qed.
+
+(* C09: octets after the declared packet are never read *)
+Theorem srv1_unpack_layout_app apid k seq version ref dest stamp h step fail cfg rest :
+  srv1_args_valid apid k seq version ref dest stamp h step fail -> up_ts_len cfg = len stamp ->
+  srv1_unpack (srv1_layout apid k seq version ref dest stamp h step fail ++ rest) cfg =
+  srv1_unpack (srv1_layout apid k seq version ref dest stamp h step fail) cfg.
+Proof.
+  intros (V & _) TS. unfold srv1_unpack, srv1_layout. rewrite TS.
+  rewrite s1_tm_unpack_layout_app, s1_tm_unpack_layout by exact V. reflexivity.
+Qed.
